@@ -1,5 +1,67 @@
+import Casket.Model.FCGI
+import Casket.Spec.FCGI
 import Driver.Proto
-/- Streams of C13 (stub: not built yet). -/
+/-
+Streams of C13.
+  c13.wire   id pairs body rk      out = hex of everything FCGIClient.Do wrote | PANIC:<class>
+     pairs = comma list of  klen:vlen:seed  (name = index digit ++ filler, value = filler)
+             or  x<hexname>=<hexvalue> ;  body = len:seed | x<hex> ;  rk = how the body reader behaves
+-/
 namespace Driver.C13
-def streams : List Driver.Stream := []
+open Casket.Fault Casket.FCGI Casket.FCGISpec
+
+/-- the deterministic filler the harness uses for long names and values -/
+def filler (seed n : Nat) : Bytes := (List.range n).map fun i => UInt8.ofNat (97 + (seed + i) % 26)
+
+def parsePair (i : Nat) (s : String) : Option Pair :=
+  if s.startsWith "x" then
+    match (s.drop 1).toString.splitOn "=" with
+    | [k, v] => do pure (← Driver.unhex k, ← Driver.unhex v)
+    | _ => none
+  else
+    match s.splitOn ":" with
+    | [kl, vl, sd] => do
+      let kl ← kl.toNat?
+      let vl ← vl.toNat?
+      let sd ← sd.toNat?
+      pure (if kl = 0 then [] else UInt8.ofNat (48 + i) :: filler sd (kl - 1), filler (sd + 7) vl)
+    | _ => none
+
+def parsePairs (s : String) : Option (List Pair) :=
+  if s = "" then some [] else
+  let items := s.splitOn ","
+  (items.zip (List.range items.length)).mapM fun (it, i) => parsePair i it
+
+def parseBody (s : String) : Option Bytes :=
+  if s.startsWith "x" then Driver.unhex (s.drop 1).toString
+  else match s.splitOn ":" with
+    | [l, sd] => do pure (filler (← sd.toNat?) (← l.toNat?))
+    | _ => none
+
+def wireModel : List String → String
+  | [id, ps, body, _rk] =>
+    match id.toNat?, parsePairs ps, parseBody body with
+    | some id, some ps, some body =>
+      match clientWire id ps body with
+      | .ok w => Driver.hex w
+      | .error f => "PANIC:" ++ f.name
+    | _, _, _ => "bad-case"
+  | _ => "bad-case"
+
+def wireJudge (f : List String) (out : String) : String :=
+  match f with
+  | [id, ps, body, _rk] =>
+    match id.toNat?, parsePairs ps, parseBody body with
+    | some id, some ps, some body =>
+      if out.startsWith "PANIC" then "bad:panic:" ++ out
+      else match Driver.unhex out with
+        | some w => wireVerdict id ps body w
+        | none => "bad:unparsable:" ++ (out.take 40).toString
+    | _, _, _ => "bad:unparsable:case"
+  | _ => "bad:unparsable:case"
+
+def streams : List Driver.Stream := [
+  { name := "c13.wire", model := wireModel, judge := wireJudge }
+]
+
 end Driver.C13
